@@ -15,6 +15,7 @@ def J.beq : J → J → Bool
   | .str a, .str b => a == b
   | .arr xs, .arr ys => J.beqList xs ys
   | .obj xs, .obj ys => J.beqKvs xs ys
+  | .raw a, .raw b => J.beq a b
   | _, _ => false
 def J.beqList : List J → List J → Bool
   | [], [] => true
@@ -45,9 +46,9 @@ def wellFormedB (f : Flag) (d : Detail) : Bool :=
        J.beq d.value (f.variations.getD i.toNat .null) && d.reason.kind != .error &&
        d.reason.errorKind.isNone
    | none => false)
-  || (d.index.isNone && d.value.isNull && d.reason.kind == .error &&
+  || (d.index.isNone && J.beq d.value .null && d.reason.kind == .error &&
        (d.reason.errorKind == some .malformedFlag || d.reason.errorKind == some .userNotSpecified))
-  || (d.index.isNone && d.value.isNull && f.offVariation.isNone && d.reason.errorKind.isNone &&
+  || (d.index.isNone && J.beq d.value .null && f.offVariation.isNone && d.reason.errorKind.isNone &&
        (d.reason.kind == .off || d.reason.kind == .prereqFailed))
 
 end LD
